@@ -1,4 +1,4 @@
-import Nstd.Path.ScanBack
+import Nstd.Path.ScanBase
 /-
   Property C19, tie by translation: the bodies of the path scanners of the CURRENT src/File.cpp, translated by
   tools/gen_path.py into Nstd/Generated/PathScan.lean, compute the functions of the hand-written model
@@ -56,5 +56,80 @@ theorem getExtension_translated (file : Bytes) (fuel : Nat) (hf : file.length + 
       subst h1
       have := ext_dot (d ++ s :: d') c e h2' (fun y hy => ⟨h3' y hy, h3 y (by simp [hy])⟩) fuel (by simpa using hf)
       simpa using this
+
+/-- the translated body of File::getBaseName (loop, `goto removeExtension`, both extension branches) computes the
+    model function, for every file name and every extension -/
+theorem getBaseName_translated (file ext : Bytes) (fuel : Nat) (hf : file.length + 1 ≤ fuel) :
+    Nstd.Generated.PathScan.getBaseName fuel file ext = some (Nstd.Path.getBaseName file ext) := by
+  rw [getBaseName_eq_stripExt]
+  unfold afterLastSep
+  cases h : splitLast isSep file with
+  | none => exact base_none file ext (splitLast_none.mp h) fuel hf
+  | some t =>
+    obtain ⟨d, s, b⟩ := t
+    obtain ⟨h1, h2, h3⟩ := splitLast_some h
+    subst h1
+    exact base_some d s b ext h2 h3 fuel hf
+
+/-- the translated body of File::getStem (call of getBaseName for a given extension; otherwise the scan that notes the
+    first dot met from the end and stops at a separator) computes the model function -/
+theorem getStem_translated (file ext : Bytes) (fuel : Nat) (hf : file.length + 1 ≤ fuel) :
+    Nstd.Generated.PathScan.getStem fuel file ext = some (Nstd.Path.getStem file ext) := by
+  by_cases hx : ext = []
+  · subst hx
+    simp only [Nstd.Path.getStem, ne_eq, not_true_eq_false, if_false]
+    unfold afterLastSep
+    cases h : splitLast isSep file with
+    | none =>
+      have hb := splitLast_none.mp h
+      simp only
+      cases h' : splitLast isDot file with
+      | none =>
+        have hd := splitLast_none.mp h'
+        exact stem_b2 file (fun y hy => ⟨hb y hy, hd y hy⟩) fuel hf
+      | some t =>
+        obtain ⟨d', c, e⟩ := t
+        obtain ⟨h1, h2, h3⟩ := splitLast_some h'
+        subst h1
+        exact stem_b1 d' c e h2 (fun y hy => hb y (by simp [hy])) (fun y hy => ⟨hb y (by simp [hy]), h3 y hy⟩) fuel hf
+    | some t =>
+      obtain ⟨d, s, b⟩ := t
+      obtain ⟨h1, h2, h3⟩ := splitLast_some h
+      subst h1
+      simp only
+      cases h' : splitLast isDot b with
+      | none =>
+        have hd := splitLast_none.mp h'
+        exact stem_a2 d s b h2 (fun y hy => ⟨h3 y hy, hd y hy⟩) fuel hf
+      | some t =>
+        obtain ⟨d', c, e⟩ := t
+        obtain ⟨h1, h2', h3'⟩ := splitLast_some h'
+        subst h1
+        exact stem_a1 d s d' c e h2 h2' (fun y hy => h3 y (by simp [hy]))
+          (fun y hy => ⟨h3 y (by simp [hy]), h3' y hy⟩) fuel hf
+  · have hne : ext.isEmpty = false := by cases ext with | nil => exact absurd rfl hx | cons _ _ => rfl
+    unfold Nstd.Generated.PathScan.getStem
+    simp only [hne, Bool.not_false, if_true, getBaseName_translated file ext fuel hf, Nstd.Path.getStem, ne_eq, hx,
+      not_false_eq_true]
+
+/-- the translated body of File::isAbsolutePath computes the model function (no read outside the buffer: the
+    terminator is what `data[1]`/`data[2]` read on short strings) -/
+theorem isAbsolutePath_translated (path : Bytes) (fuel : Nat) :
+    Nstd.Generated.PathScan.isAbsolutePath fuel path = some (Nstd.Path.isAbsolutePath path) := by
+  unfold Nstd.Generated.PathScan.isAbsolutePath Nstd.Path.isAbsolutePath
+  match path with
+  | [] => simp [cAt, inb, startsWithSlash]
+  | [a] => simp [cAt, inb, startsWithSlash, sep_test']
+  | [a, b] => simp [cAt, inb, startsWithSlash, sep_test']
+  | a :: b :: c :: t =>
+    have h3 : inb (a :: b :: c :: t) (0 + 2) = true := by simp [inb]; omega
+    have h2 : inb (a :: b :: c :: t) (0 + 1) = true := by simp [inb]; omega
+    have h1 : inb (a :: b :: c :: t) 0 = true := by simp [inb]; omega
+    simp only [h1, h2, h3]
+    simp [cAt, startsWithSlash, sep_test']
+    have h4 : decide ((2 : Int) < (t.length : Int) + 1 + 1 + 1) = true := by apply decide_eq_true; omega
+    have h5 : decide (b = 58) = (b == 58) := by rw [Bool.eq_iff_iff]; simp
+    rw [h4, h5]
+    simp
 
 end Nstd.Path.Scan
